@@ -96,4 +96,365 @@ theorem C12_localonly_true_drops_exactly_propagated (c : Cls) (f : Flags) (hlo :
   rw [applyFlags_eq]
   simp [stageLocal, hlo, hpl, filterProps, localOnly, truthy, List.map_map, Function.comp_def, hk]
 
+/-! ### the hierarchy: forest invariant, enumerations, DeleteClass, EnumerateInstances -/
+
+/-- **Forest invariant** (also the termination argument of the code's recursion over subclasses and
+    of its loop over superclasses): after ANY history of CreateClass / add_cimobjects / ModifyClass /
+    DeleteClass / queries — accepted or refused — starting from an empty repository, the class store
+    is a forest: names pairwise different up to case and every class's superclass stored before it.
+    In particular no inheritance cycle can be built. -/
+theorem C12_forest_invariant (decls : List QDecl) (ops : List Op) :
+    Forest (run { decls := decls } ops).1.classes :=
+  forest_run ops .nil
+
+/-- no class is its own (direct or indirect) subclass in any reachable store -/
+theorem C12_acyclic (decls : List QDecl) (ops : List Op) (c : Cls)
+    (hc : c ∈ (run { decls := decls } ops).1.classes) :
+    ¬ Spec.Desc (run { decls := decls } ops).1.classes c.name c.name := by
+  intro hd
+  have hf := C12_forest_invariant decls ops
+  generalize (run { decls := decls } ops).1.classes = cs at hc hd hf
+  -- a cycle would make the enumeration of c's subtree contain c; remove c's subtree: c is removed,
+  -- which contradicts ... (direct argument: induction on the forest)
+  induction hf with
+  | nil => simp at hc
+  | @snoc cs d hf hfr hp ih =>
+    have hF : Forest (cs ++ [d]) := .snoc hf hfr hp
+    rcases desc_snoc hF hd with hold | ⟨hname, hch⟩
+    · obtain ⟨q, hq, hqn⟩ := desc_is_stored hold
+      simp at hc
+      rcases hc with hc | rfl
+      · exact ih hc hold
+      · have := hasClass_false_iff.mp hfr q hq
+        simp [hqn, ieq_refl] at this
+    · -- c is the newest class d and a child of (a descendant of) itself: impossible, d is a leaf
+      have leaf := forest_last_leaf hF
+      rcases hch with hch | ⟨m, hm, hch⟩
+      · exact leaf d (by simp) (by rw [← hname]; exact hch)
+      · obtain ⟨q, hq, hqn⟩ := desc_is_stored hm
+        -- m is an old class that descends from c.name = d.name: its chain starts with a child of d
+        have : ∀ {x a}, Spec.Desc cs x a → a = d.name → False := by
+          intro x a hxa
+          induction hxa with
+          | child hmem hic => intro ha; subst ha; exact leaf _ (by simp [hmem]) hic
+          | trans _ _ _ ih2 => exact ih2
+        exact this hm hname
+
+/-- **EnumerateClassNames(C, DeepInheritance=False) = exactly the children of C** (any store) -/
+theorem C12_enumerate_children_exact (cs : List Cls) (a x : Name) :
+    x ∈ subNames cs (some a) false ↔ ∃ c ∈ cs, c.name = x ∧ Spec.IsChild c a := by
+  simp only [subNames]
+  exact mem_children
+
+/-- **EnumerateClassNames(C, DeepInheritance=True) = exactly the subtree below C**, on every
+    reachable store: nothing but descendants (soundness needs no hypothesis), and every descendant
+    (the recursion depth `classes.length` is enough because the store is a forest). -/
+theorem C12_enumerate_subtree_exact (decls : List QDecl) (ops : List Op) (a x : Name) :
+    x ∈ subNames (run { decls := decls } ops).1.classes (some a) true ↔
+      Spec.Desc (run { decls := decls } ops).1.classes x a :=
+  mem_subNames_deep (C12_forest_invariant decls ops)
+
+/-- soundness of the subtree enumeration for an arbitrary store and recursion depth -/
+theorem C12_enumerate_subtree_sound (cs : List Cls) (f : Nat) (a x : Name)
+    (h : x ∈ subNamesDeep f cs (some a)) : Spec.Desc cs x a :=
+  subNamesDeep_sound h
+
+/-- EnumerateClasses returns, for exactly the names EnumerateClassNames returns, what GetClass
+    returns with the same flags -/
+theorem C12_enumClasses_is_map_getClass (s : State) (cn : Option Name) (deep : Option Bool) (f : Flags)
+    (l : List Cls) (h : enumClasses s cn deep f = .ok l) :
+    ∃ names, enumClassNames s cn deep = .ok names ∧
+      mapE (fun n => getClass s.classes n { f with pl := none }) names = .ok l := by
+  unfold enumClasses at h
+  cases hn : enumClassNames s cn deep with
+  | error e => simp [hn] at h
+  | ok names => simp [hn] at h; exact ⟨names, rfl, h⟩
+
+/-- **DeleteClass removes exactly the subtree and its instances** (on every reachable store):
+    the remaining classes are the old ones, in the old order, minus the class and its descendants;
+    the remaining instances are those whose class is neither the class nor a descendant;
+    qualifier declarations are untouched. -/
+theorem C12_deleteClass_removes_exactly_subtree (s : State) (hr : Reachable s) (n : Name)
+    (s' : State) (h : deleteClass s n = .ok s') :
+    (∀ c, c ∈ s'.classes ↔ c ∈ s.classes ∧ ¬ (ieq c.name n = true ∨ Spec.Desc s.classes c.name n)) ∧
+    s'.classes.Sublist s.classes ∧
+    (∀ i, i ∈ s'.insts ↔ i ∈ s.insts ∧
+      ¬ (ieq n i.cls = true ∨ ∃ t, Spec.Desc s.classes t n ∧ ieq t i.cls = true)) ∧
+    s'.insts.Sublist s.insts ∧ s'.decls = s.decls ∧ Forest s'.classes := by
+  have hf : Forest s.classes := reachable_forest hr
+  obtain ⟨_, hc, hi, hd⟩ := deleteClass_ok h
+  refine ⟨?_, by rw [hc]; exact List.filter_sublist, ?_, by rw [hi]; exact List.filter_sublist, hd,
+    by rw [hc]; exact forest_delete hf n⟩
+  · intro c
+    rw [hc, List.mem_filter]
+    constructor
+    · rintro ⟨hm, hk⟩
+      refine ⟨hm, fun hx => ?_⟩
+      have := (inNames_subtree_class hf hm).mpr hx
+      simp [this] at hk
+    · rintro ⟨hm, hk⟩
+      refine ⟨hm, ?_⟩
+      cases hin : inNames (subtreeList s.classes n) c.name with
+      | false => rfl
+      | true => exact absurd ((inNames_subtree_class hf hm).mp hin) hk
+  · intro i
+    rw [hi, List.mem_filter]
+    constructor
+    · rintro ⟨hm, hk⟩
+      refine ⟨hm, fun hx => ?_⟩
+      have := (inNames_subtree hf).mpr hx
+      simp [this] at hk
+    · rintro ⟨hm, hk⟩
+      refine ⟨hm, ?_⟩
+      cases hin : inNames (subtreeList s.classes n) i.cls with
+      | false => rfl
+      | true => exact absurd ((inNames_subtree hf).mp hin) hk
+
+/-- **EnumerateInstances / EnumerateInstanceNames (C) = exactly the instances of C's subtree** (on
+    every reachable store), in store order -/
+theorem C12_enumInstances_subtree_exact (s : State) (hr : Reachable s) (n : Name) (l : List Inst)
+    (h : enumInsts s n = .ok l) :
+    l.Sublist s.insts ∧
+    ∀ i, i ∈ l ↔ i ∈ s.insts ∧ (ieq n i.cls = true ∨ ∃ t, Spec.Desc s.classes t n ∧ ieq t i.cls = true) := by
+  have hf : Forest s.classes := reachable_forest hr
+  unfold enumInsts at h
+  by_cases h0 : hasClass s.classes n = true
+  · simp only [h0] at h
+    simp at h
+    subst h
+    refine ⟨List.filter_sublist, fun i => ?_⟩
+    rw [List.mem_filter, inNames_subtree hf]
+  · simp [h0] at h
+
+/-- **`_get_superclass_names` terminates and returns only ancestors** on every reachable store:
+    for an existing class the loop ends (no endless loop, no KeyError) and every collected name is a
+    class the start class descends from. -/
+theorem C12_superclass_names_terminate_sound (decls : List QDecl) (ops : List Op) (n : Name)
+    (hn : hasClass (run { decls := decls } ops).1.classes n = true) :
+    ∃ l, superNames (run { decls := decls } ops).1.classes n = .ok l ∧
+      ∀ a ∈ l, ∃ x, findClass (run { decls := decls } ops).1.classes n = some x ∧
+        Spec.Desc (run { decls := decls } ops).1.classes x.name a := by
+  have hf := C12_forest_invariant decls ops
+  generalize (run { decls := decls } ops).1.classes = cs at hn hf
+  obtain ⟨l, hl⟩ := superChain_terminates hf n hn
+  have hl' := superChain_mono_fuel _ _ _ hl
+  refine ⟨l.reverse, by simp [superNames, hl'], ?_⟩
+  intro a ha
+  exact superChain_sound _ _ _ hl' a (by simpa using ha)
+
+/-! ### failed operations and queries change nothing -/
+
+/-- an operation answered with an error leaves classes, instances and declarations untouched -/
+theorem C12_failed_op_changes_nothing (s : State) (op : Op) (e : PyExc)
+    (h : (step s op).2 = .err e) : (step s op).1 = s := by
+  cases op with
+  | addInst i => simp [step] at h
+  | create c => simp only [step] at h ⊢; split <;> simp_all
+  | add c => simp only [step] at h ⊢; split <;> simp_all
+  | modify c => simp only [step] at h ⊢; split <;> simp_all
+  | delete n => simp only [step] at h ⊢; split <;> simp_all
+  | get n f => simp only [step]; split <;> rfl
+  | enumNames cn d => simp only [step]; split <;> rfl
+  | enumClasses cn d f => simp only [step]; split <;> rfl
+  | supers n => simp only [step]; split <;> rfl
+  | enumInsts n => simp only [step]; split <;> rfl
+
+/-- GetClass, the enumerations and `_get_superclass_names` never change the repository -/
+theorem C12_queries_change_nothing (s : State) :
+    (∀ n f, (step s (.get n f)).1 = s) ∧ (∀ cn d, (step s (.enumNames cn d)).1 = s) ∧
+    (∀ cn d f, (step s (.enumClasses cn d f)).1 = s) ∧ (∀ n, (step s (.supers n)).1 = s) ∧
+    (∀ n, (step s (.enumInsts n)).1 = s) := by
+  refine ⟨?_, ?_, ?_, ?_, ?_⟩ <;> intros <;> simp only [step] <;> split <;> rfl
+
+/-! ### resolution of one class against its (resolved) superclass
+
+`resolveElems decls n own (some inherited)` is `_resolve_objects` for the properties (or methods) of a
+new class named `n` whose superclass exposes `inherited`; the stored classes are built by it
+(`resolveParts`), for CreateClass, add_cimobjects, ModifyClass and MOF compilation alike. -/
+
+/-- concrete objects for the non-vacuity examples and the negation witnesses -/
+def wOverride : QDecl :=
+  { name := ['O','v','e','r','r','i','d','e'], ty := 1, scopes := [.prop, .ref, .meth], anyScope := false,
+    tosub := some false, overr := some true, transl := none }
+def wDesc : QDecl :=
+  { name := ['D','e','s','c'], ty := 1, scopes := [], anyScope := true, tosub := some true,
+    overr := some true, transl := none }
+def wBaseP : Elem :=
+  { name := ['p'], isMeth := false, ty := 2, origin := some ['B','a','s','e'], propagated := some false }
+def wBaseQ : Elem :=
+  { name := ['q'], isMeth := false, ty := 1, origin := some ['B','a','s','e'], propagated := some false }
+/-- `[Override("p")] uint32 P;` -/
+def wSubP : Elem :=
+  { name := ['P'], isMeth := false, ty := 2,
+    quals := [{ name := ['o','v','e','r','r','i','d','e'], ty := 1, val := .str ['p'] }] }
+def wSubR : Elem := { name := ['r'], isMeth := false, ty := 0 }
+def wBase : Cls :=
+  { name := ['B','a','s','e'], super := none,
+    quals := [{ name := ['D','e','s','c'], ty := 1, val := .str ['b'], propagated := some false,
+                tosub := some true, overr := some true }],
+    props := [wBaseP, wBaseQ], meths := [] }
+def wSub : Cls := { name := ['S','u','b'], super := some ['b','A','S','E'], quals := [], props := [wSubP, wSubR], meths := [] }
+
+/-- **Exposed elements = own ∪ (inherited \ redeclared)**, in that order, names compared
+    case-insensitively (`Spec.exposedNames`). -/
+theorem C12_exposed_names_exact (decls : List QDecl) (n : Name) (own inherited r : List Elem)
+    (h : resolveElems decls n own (some inherited) = .ok r) :
+    r.map (·.name) = Spec.exposedNames (own.map (·.name)) (inherited.map (·.name)) :=
+  resolveElems_names h
+
+example : ∃ r, resolveElems [wOverride, wDesc] wSub.name [wSubP, wSubR] (some [wBaseP, wBaseQ]) = .ok r ∧
+    r.map (·.name) = [['P'], ['r'], ['q']] :=
+  ⟨okOr (resolveElems [wOverride, wDesc] wSub.name [wSubP, wSubR] (some [wBaseP, wBaseQ])) [], by decide, by decide⟩
+
+/-- a class without superclass exposes exactly its own elements -/
+theorem C12_exposed_names_root (decls : List QDecl) (n : Name) (own r : List Elem)
+    (h : resolveElems decls n own none = .ok r) : r.map (·.name) = own.map (·.name) :=
+  resolveElems_names_root h
+
+/-- **class_origin and propagated of every resolved element.**  Each element of the resolved class is
+    (1) newly introduced: class_origin = the class itself, propagated = False; or
+    (2) an own element overriding the superclass element named by its Override qualifier: class_origin =
+        that element's class_origin (so, by induction over the creation history, the class that first
+        introduced it); propagated = True — this is the open defect C12-override-marked-propagated,
+        the property demands False; or
+    (3) inherited and not redeclared: a copy of the superclass element with propagated = True, the same
+        class_origin, and its qualifiers filtered by flavor (`copyElem`). -/
+theorem C12_origin_and_propagated (decls : List QDecl) (n : Name) (own inherited r : List Elem)
+    (h : resolveElems decls n own (some inherited) = .ok r) :
+    ∀ e ∈ r,
+      (∃ d ∈ own, e.name = d.name ∧ hasElem inherited d.name = false ∧ e.origin = some n ∧
+          e.propagated = some false) ∨
+      (∃ d ∈ own, e.name = d.name ∧ hasElem inherited d.name = true ∧
+          ∃ oname s, keyOfVal (overrideVal d.quals) = .ok oname ∧ findElem inherited oname = some s ∧
+            e.origin = s.origin ∧ e.propagated = some true) ∨
+      (∃ p ∈ inherited, hasElem own p.name = false ∧ e = copyElem p) := by
+  unfold resolveElems at h
+  simp only at h
+  cases hm : mapE (resolveElem decls n inherited) own with
+  | error err => simp [hm] at h
+  | ok es =>
+    simp [hm] at h; subst h
+    intro e he
+    rcases List.mem_append.mp he with he | he
+    · obtain ⟨d, hd, hde⟩ := mapE_ok_mem hm e he
+      obtain ⟨hn, hcase⟩ := resolveElem_ok hde
+      rcases hcase with ⟨h1, h2, h3⟩ | ⟨h1, _, oname, s0, hk, hf, ho, hp⟩
+      · exact Or.inl ⟨d, hd, hn, h1, h2, h3⟩
+      · exact Or.inr (Or.inl ⟨d, hd, hn, h1, oname, s0, hk, hf, ho, hp⟩)
+    · obtain ⟨p, hp, rfl⟩ := List.mem_map.mp he
+      obtain ⟨hp1, hp2⟩ := List.mem_filter.mp hp
+      exact Or.inr (Or.inr ⟨p, hp1, by simpa using hp2, rfl⟩)
+
+/- Full statement demanded by the property:
+     ∀ e ∈ r, e.propagated = some true ↔ (the class does not declare e)
+   It fails on the code (and on the model mirroring it) for overriding elements; proved for classes
+   without overriding elements, negation witness below. -/
+/-- **propagated ⇔ not redeclared — partial**: holds when the class overrides nothing. -/
+theorem C12_propagated_iff_not_redeclared_partial (decls : List QDecl) (n : Name)
+    (own inherited r : List Elem) (h : resolveElems decls n own (some inherited) = .ok r)
+    (hno : ∀ d ∈ own, hasElem inherited d.name = false) :
+    ∀ e ∈ r, (e.propagated = some true ↔ hasElem own e.name = false) := by
+  intro e he
+  rcases C12_origin_and_propagated decls n own inherited r h e he with
+    ⟨d, hd, hn, _, _, hp⟩ | ⟨d, hd, _, h1, _⟩ | ⟨p, _, hp2, rfl⟩
+  · have : hasElem own e.name = true := by
+      simp only [hasElem, List.any_eq_true]; exact ⟨d, hd, by rw [hn]; exact ieq_refl _⟩
+    simp [hp, this]
+  · have := hno d hd; simp [h1] at this
+  · simp [copyElem, hp2]
+
+example : ∃ r, resolveElems [wOverride, wDesc] wSub.name [wSubR] (some [wBaseP, wBaseQ]) = .ok r ∧
+    (∀ d ∈ [wSubR], hasElem [wBaseP, wBaseQ] d.name = false) :=
+  ⟨okOr (resolveElems [wOverride, wDesc] wSub.name [wSubR] (some [wBaseP, wBaseQ])) [], by decide, by decide⟩
+
+/-- negation witness (known finding C12-override-marked-propagated): `Sub` declares `P` overriding
+    `Base.p`, yet the resolved `P` is marked propagated -/
+theorem C12_propagated_iff_not_redeclared_fails_at :
+    ¬ (∀ r, resolveElems [wOverride, wDesc] wSub.name [wSubP, wSubR] (some [wBaseP, wBaseQ]) = .ok r →
+        ∀ e ∈ r, (e.propagated = some true ↔ hasElem [wSubP, wSubR] e.name = false)) := by
+  intro h
+  have := h (okOr (resolveElems [wOverride, wDesc] wSub.name [wSubP, wSubR] (some [wBaseP, wBaseQ])) [])
+    (by decide)
+  revert this
+  decide
+
+/-- **Inherited, not redeclared elements carry exactly the ToSubclass qualifiers of the superclass
+    element, all marked propagated** (Restricted ones stay behind). -/
+theorem C12_inherited_quals_per_flavor (p : Elem) (q : Qual) :
+    q ∈ (copyElem p).quals ↔ ∃ q0 ∈ p.quals, q0.tosub ≠ some false ∧ q = { q0 with propagated := some true } := by
+  simp only [copyElem, copyQuals, List.mem_map, List.mem_filter]
+  constructor
+  · rintro ⟨q0, ⟨h1, h2⟩, rfl⟩; exact ⟨q0, h1, by simpa using h2, rfl⟩
+  · rintro ⟨q0, h1, h2, rfl⟩; exact ⟨q0, ⟨h1, by simpa using h2⟩, rfl⟩
+
+/-- own qualifiers of a newly introduced element: same names and values, propagated = False, flavors
+    completed from the qualifier declaration (own value, else declaration, else True) -/
+theorem C12_new_element_quals_initialised (decls : List QDecl) (q q' : Qual) (h : initQual decls q = .ok q') :
+    q'.name = q.name ∧ q'.val = q.val ∧ q'.ty = q.ty ∧ q'.propagated = some false ∧
+    ∃ d, findDecl decls q.name = some d ∧ q'.tosub = fillFlavor q.tosub d.tosub ∧
+      q'.overr = fillFlavor q.overr d.overr ∧ (fillFlavor q.tosub d.tosub).isSome := by
+  unfold initQual at h
+  cases hd : findDecl decls q.name with
+  | none => simp [hd] at h
+  | some d =>
+    simp [hd] at h; subst h
+    refine ⟨rfl, rfl, rfl, rfl, d, rfl, rfl, rfl, ?_⟩
+    cases q.tosub <;> simp [fillFlavor]
+
+/- Full statement demanded by the property (qualifiers propagate per their flavors, also at class
+   level):   names of (resolved class).quals = names of own quals ++ names of Spec.inheritedQuals own sup.quals
+   It fails on the code: `_resolve_class` resolves class-level qualifiers with propagate=False. -/
+/-- **class-level qualifiers — partial**: exact when the superclass has no ToSubclass class qualifier
+    that the class leaves out (then nothing is to be inherited). -/
+theorem C12_class_qualifiers_per_flavor_partial (decls : List QDecl) (c r : Cls) (sup : Cls)
+    (h : resolveParts decls c (some sup) = .ok r)
+    (hnone : Spec.inheritedQuals c.quals sup.quals = []) :
+    r.quals.map (·.name) = c.quals.map (·.name) ++ (Spec.inheritedQuals c.quals sup.quals).map (·.name) := by
+  obtain ⟨cq, ps, ms, hq, _, _, rfl⟩ := resolveParts_ok h
+  simp only [hnone, List.map_nil, List.append_nil]
+  simp only [resolveQuals] at hq
+  exact mapE_ok_map (·.name) (·.name) (fun a b hab => by
+    unfold initQual at hab
+    cases hd : findDecl decls a.name with
+    | none => simp [hd] at hab
+    | some d => simp [hd] at hab; subst hab; rfl) hq
+
+example : ∃ r, resolveParts [wOverride, wDesc] { wSub with quals := wBase.quals } (some wBase) = .ok r ∧
+    Spec.inheritedQuals wBase.quals wBase.quals = [] :=
+  ⟨okOr (resolveParts [wOverride, wDesc] { wSub with quals := wBase.quals } (some wBase)) wSub, by decide, by decide⟩
+
+/-- negation witness (known finding C12-classqual-not-inherited): `Base` carries the ToSubclass
+    qualifier `Desc`, `Sub : Base` does not repeat it, and the resolved `Sub` has no class qualifier -/
+theorem C12_class_qualifiers_per_flavor_fails_at :
+    ¬ (∀ r, resolveParts [wOverride, wDesc] wSub (some wBase) = .ok r →
+        r.quals.map (·.name) = wSub.quals.map (·.name) ++
+          (Spec.inheritedQuals wSub.quals wBase.quals).map (·.name)) := by
+  intro h
+  have := h (okOr (resolveParts [wOverride, wDesc] wSub (some wBase)) wSub) (by decide)
+  revert this
+  decide
+
+/-! ### non-vacuity of the history theorems: a concrete accepted history -/
+
+/-- CreateClass(Base); CreateClass(Sub : bASE, overriding p); an instance of `SUB`; a second root -/
+def wHistory : List Op :=
+  [.create { wBase with quals := [{ name := ['D','e','s','c'], ty := 1, val := .str ['b'] }] },
+   .create wSub, .addInst { cls := ['S','U','B'], key := 1 },
+   .create { name := ['O','t','h','e','r'], super := none, quals := [], props := [], meths := [] },
+   .addInst { cls := ['o','t','h','e','r'], key := 2 }]
+
+def wState : State := (run { decls := [wOverride, wDesc] } wHistory).1
+
+example : Reachable wState := ⟨_, _, rfl⟩
+example : wState.classes.map (·.name) = [['B','a','s','e'], ['S','u','b'], ['O','t','h','e','r']] := by decide
+example : subNames wState.classes (some ['b','a','s','e']) true = [['S','u','b']] := by decide
+example : superNames wState.classes ['s','u','b'] = .ok [['b','A','S','E']] := by decide
+example : enumInsts wState ['B','A','S','E'] = .ok [{ cls := ['S','U','B'], key := 1 }] := by decide
+/-- DeleteClass(BASE) is accepted and removes Base, Sub and Sub's instance, nothing else -/
+example : ∃ s', deleteClass wState ['B','A','S','E'] = .ok s' ∧
+    s'.classes.map (·.name) = [['O','t','h','e','r']] ∧ s'.insts = [{ cls := ['o','t','h','e','r'], key := 2 }] :=
+  ⟨okOr (deleteClass wState ['B','A','S','E']) wState, by decide, by decide, by decide⟩
+/-- a refused operation (duplicate CreateClass in another case) is an error and changes nothing -/
+example : (step wState (.create { wSub with name := ['s','U','B'] })).2 = .err (.cimError 11) := by decide
+
 end C12
